@@ -54,7 +54,22 @@ MemOps == {"[%rax]", "[%rbx]", "[%rcx]", "[%rax+0x8]", "[%rbx+0x10]", "[%rax+0x8
 ListingsD == { WithAddrs(<< <<"m", <<o>> >> >>) : o \in MemOps }
         \cup { WithAddrs(<< <<"m", <<o, "x">> >> >>) : o \in MemOps }
 
+\* ---- wide any-order groups: 4 and 5 children, two of which can match one and the same instruction ----
+\* (`a' also matches the mnemonic `ab' under the default substring matching; a window in which ONE instruction
+\* would have to serve two children is no arrangement of the children)
+A1 == PIns("a", <<OLit("x")>>)
+WideGroups == { PPerm(<<I("a"), I("ab"), I("c"), I("d"), I("e")>>), PPerm(<<I("a"), I("b"), I("c"), I("d"), I("e")>>),
+                PPerm(<<I("a"), I("ab"), I("c"), I("d")>>), PPerm(<<I("a"), I("a"), I("c"), I("d"), I("e")>>),
+                PPerm(<<I("a"), A1, I("c"), I("d"), I("e")>>) }
+PatternsW == { PAnd(<<g>>) : g \in WideGroups } \cup { PAnd(<<g, I("q")>>) : g \in WideGroups }
+\* five instructions: c, d, e at any three positions, the other two from a / ab / a x / b / z; plus a sixth `q'
+FillW == { <<"a", <<>> >>, <<"ab", <<>> >>, <<"a", <<"x">> >>, <<"b", <<>> >>, <<"z", <<>> >> }
+WindowsW == { s \in [1..5 -> FillW \cup { <<"c", <<>> >>, <<"d", <<>> >>, <<"e", <<>> >> }] :
+                \A m \in {"c", "d", "e"} : Cardinality({ n \in 1..5 : s[n][1] = m }) = 1 }
+ListingsW == { WithAddrs(s) : s \in WindowsW } \cup { WithAddrs(s \o << <<"q", <<>> >> >>) : s \in WindowsW }
+        \cup { WithAddrs(SubSeq(s, 1, 4)) : s \in WindowsW }
 Universe == [patterns |-> SetToSeq(PatternsI), listings |-> SetToSeq(ListingsI)]
+UniverseW == [patterns |-> SetToSeq(PatternsW), listings |-> SetToSeq(ListingsW)]
 UniverseO == [patterns |-> SetToSeq(PatternsO), listings |-> SetToSeq(ListingsO)]
 UniverseD == [patterns |-> SetToSeq(PatternsD), listings |-> SetToSeq(ListingsD)]
 =============================================================================
